@@ -756,3 +756,114 @@ func ruleDRMDefaultDeny(c *eng.Ctx) {
 		c.Viol(R, "epubdoc.hasEncryptedContent#return-true", fn.Pos(), "no positive verdict found")
 	}
 }
+
+// R17.5 [C17]
+func ruleBoundsOffsets(c *eng.Ctx) {
+	const R = "R17.5-BOUNDS-OFFSETS"
+	c.Rule(R, "in the XLSX writers that crop a sheet to its content bounds, every row index into the sheet grid derives from minRow and every column index from minCol (loop variables that start there, or offsets added to them): an index that starts at zero reads column A although the table starts at minCol, so all values shift", 6, 0)
+	bounds := c.P.Func("xlsx.(*Reader).findContentBounds")
+	if bounds == nil {
+		c.Undec(R, "xlsx.(*Reader).findContentBounds", token.NoPos, "anchor not found")
+		return
+	}
+	for _, fn := range c.P.ModuleFuncs() {
+		if fn.Pkg == nil || eng.ShortPath(fn.Pkg.Pkg.Path()) != "xlsx" || fn == bounds {
+			continue
+		}
+		var call *ssa.Call
+		for _, ci := range eng.Calls(fn, false, func(_ string, ci ssa.CallInstruction) bool { return ci.Common().StaticCallee() == bounds }) {
+			if cc, ok := ci.(*ssa.Call); ok {
+				call = cc
+			}
+		}
+		if call == nil {
+			continue
+		}
+		dependsOn := func(v ssa.Value, idx int) bool {
+			for w := range eng.Slice(v, nil) {
+				if ex, ok := w.(*ssa.Extract); ok && ex.Tuple == ssa.Value(call) && ex.Index == idx {
+					return true
+				}
+			}
+			return false
+		}
+		isSheetRows := func(v ssa.Value) bool {
+			fr, ok := eng.LoadOfField(v)
+			return ok && fr.Field == "Rows" && strings.HasSuffix(fr.Struct, "xlsx.Sheet")
+		}
+		nr, ncol := 0, 0
+		eng.Instrs(fn, false, func(in ssa.Instruction) {
+			ia, ok := in.(*ssa.IndexAddr)
+			if !ok || !call.Block().Dominates(ia.Block()) {
+				return
+			}
+			if isSheetRows(ia.X) {
+				nr++
+				c.Check(dependsOn(ia.Index, 0), R, fmt.Sprintf("%s#row-index%d", eng.FuncName(fn), nr), ia.Pos(), "row index derives from minRow", "a row of the sheet grid is addressed by an index that does not derive from minRow")
+				return
+			}
+			// a row slice: element of sheet.Rows, possibly re-sliced
+			rowSlice := false
+			for w := range eng.Slice(ia.X, nil) {
+				if ia2, ok := w.(*ssa.IndexAddr); ok && isSheetRows(ia2.X) {
+					rowSlice = true
+				}
+			}
+			if !rowSlice {
+				return
+			}
+			if st, ok := ia.X.Type().Underlying().(*types.Slice); !ok || !strings.HasSuffix(eng.TypeName(st.Elem()), "xlsx.Cell") {
+				return
+			}
+			ncol++
+			c.Check(dependsOn(ia.Index, 2), R, fmt.Sprintf("%s#col-index%d", eng.FuncName(fn), ncol), ia.Pos(), "column index derives from minCol", "a cell of a sheet row is addressed by an index that does not derive from minCol: the cropped table reads from column A and every value lands minCol positions to the right")
+		})
+	}
+}
+
+// R10.10 [C10]
+func ruleSeparatorBetweenNonEmpty(c *eng.Ctx) {
+	const R = "R10.10-SEPARATOR-GUARD"
+	c.Rule(R, "in the Extractor's page loops the page separator is written only when something has already been written (the builder's Len() > 0 is tested on the way): otherwise a selection whose first page is blank starts with a separator, and the text of a selection is no longer the join of the per-page texts", 2, 0)
+	for _, fn := range c.P.ModuleFuncs() {
+		if fn.Pkg == nil || eng.ShortPath(fn.Pkg.Pkg.Path()) != "" || fn.Parent() != nil {
+			continue
+		}
+		if !strings.Contains(eng.FuncName(fn), "(*Extractor)") {
+			continue
+		}
+		n := 0
+		for _, ci := range eng.Calls(fn, false, func(name string, _ ssa.CallInstruction) bool { return name == "strings.(*Builder).WriteString" }) {
+			if !eng.InLoop(ci.Block()) {
+				continue
+			}
+			s, ok := eng.ConstString(ci.Common().Args[1])
+			if !ok || s != "\n\n" {
+				continue
+			}
+			recv := ci.Common().Args[0]
+			// only separators between pages: the loop ranges over the resolved pages (the function calls resolvePages)
+			if len(eng.CallsNamed(fn, false, "tabula.(*Extractor).resolvePages")) == 0 {
+				continue
+			}
+			n++
+			guarded := eng.GuardedBy(fn, ci.Block(), func(f eng.Fact) bool {
+				op, x, y, ok := f.Cmp()
+				if !ok {
+					return false
+				}
+				for _, side := range [][2]ssa.Value{{x, y}, {y, x}} {
+					call, isCall := side[0].(*ssa.Call)
+					if !isCall || eng.CalleeName(call) != "strings.(*Builder).Len" || !eng.SameValue(call.Call.Args[0], recv) {
+						continue
+					}
+					if k, isC := eng.ConstInt(side[1]); isC && k == 0 && (op == token.GTR || op == token.NEQ || op == token.LSS) {
+						return true
+					}
+				}
+				return false
+			})
+			c.Check(guarded, R, fmt.Sprintf("%s#separator%d", eng.FuncName(fn), n), ci.Pos(), "written only after earlier output", "the page separator can be written before anything else: a blank first page of the selection leaves a leading separator")
+		}
+	}
+}
